@@ -492,6 +492,7 @@ RULES = [
     ("R-C15-tgmath", 6, "integer promotion list and grammar", rule_tgmath),
     ("R-C15-raw-text", 1, "substitution context", rule_raw_text),
     ("R-C15-dispatch", 25, "dtype dispatch tables agree", rule_dispatch),
+    ("R-C15-cancel", 100, "no 1 - cos / 1 - exp difference in models declared single-safe", _x3.make_cstate_rule("R-C15-cancel")),
     ("R-C15-declared", 15, "models declared unsafe for single precision stay declared unsafe", _x3.rule_c15_declared),
     ("R-C15-plumb", 10, "requested precision reaches conversion, library name and ctypes signature unchanged", _x3.rule_c15_plumb),
 ]
